@@ -38,7 +38,7 @@ ASSUMPTIONS = ["thread interleavings are sampled, not enumerated; the write tap 
                "dependence on every execution", "custom gamma callbacks used here are pure functions"]
 REACH = ["rate", "_compute", "predict_win", "predict_draw", "predict_rank"]
 SHARDS = {"quick": 14, "thorough": 16}
-TECHNIQUE = "runtime monitoring: attribute-write tap + history-free shadow execution + thread schedule monitor with yield injection"
+TECHNIQUE = "runtime monitoring: attribute-write tap + history-free shadow execution (in-process and across processes) + thread schedule monitor (random yield injection and systematic single-preemption sweep)"
 
 
 def floors(tier):
